@@ -1,4 +1,4 @@
-import Logrange.Model.IdxTree
+import Logrange.Model.ITree
 /-!
 # C02 — `pkg/tmindex/cindex.go` for one partition: per-chunk hull, index root, `lastRec`, `corrupted`
 
@@ -7,7 +7,8 @@ records arrived since the last point; a first interval spanning more than `spars
 otherwise `arrangeRoot` / `ckiCtrlr.onWrite` on the block tree), `getPosForGreaterOrEqualTime`, `getPosForLessTime`
 (hull short-cuts, `errAllMatches`, MaxUint32), `getRecordsInfo`, `rebuildIndex`/`rebuildIndexInt` (segments of
 `sparseSpace` records, exclusive end position, segment maximum starting from `Generated.C02.rebuildSegmentMaxInit` = 0: finding #41), `readData`.
-All chunks share one block store (as the chunks of the real index share an index file).
+The tree of a chunk is the inductive model `ITree.T` (the one the tree theorems are proved about; compared with the real
+block tree — and with the array model `IdxTree` — in the harness section `tree`).
 -/
 namespace Logrange.CIndex
 open Logrange
@@ -21,14 +22,13 @@ structure Chk where
   id : Nat
   minTs : Int
   maxTs : Int
-  root : Option Nat := none
+  root : Option ITree.T := none
   lastRec : Nat := 0
   corrupted : Bool := false
 deriving Inhabited
 
 structure St where
   chunks : List Chk := []          -- in insertion order (the code appends)
-  store : IdxTree.Store := #[]
 
 inductive R | ok | corrupted
 deriving DecidableEq
@@ -56,19 +56,18 @@ def onWrite (s : St) (first last : Nat) (cid : Nat) (mn mx : Int) : St × R :=
     else if newChk && first > 0 then ({ s with chunks := updLast chunks (fun c => { c with corrupted := true, root := none }) }, .corrupted)
     else if l.lastRec > 0 && (if Generated.C02.onWriteSkipIsStrictLess then u32sub last l.lastRec < sparseSpace else u32sub last l.lastRec ≤ sparseSpace) then (s, .ok)
     else
-      let it : IdxTree.Interval := ⟨⟨mn, first⟩, ⟨mx, last⟩⟩
+      let it : Points.Iv := ⟨⟨mn, first⟩, ⟨mx, last⟩⟩
       match l.root with
       | none =>
         if u32sub last l.lastRec > bigGap then
           ({ s with chunks := updLast chunks (fun c => { c with corrupted := true, root := none }) }, .corrupted)
         else
-          let (store', r) := IdxTree.add 8 s.store none it
-          ({ chunks := updLast chunks (fun c => { c with root := r, lastRec := last }), store := store' }, .ok)
+          let r := ITree.add ITree.maxRecs (.leaf []) it
+          ({ chunks := updLast chunks (fun c => { c with root := r, lastRec := last }) }, .ok)
       | some root =>
-        let (store', r) := IdxTree.add 8 s.store (some root) it
-        match r with
-        | some r' => ({ chunks := updLast chunks (fun c => { c with root := some r', lastRec := last }), store := store' }, .ok)
-        | none => ({ chunks := updLast chunks (fun c => { c with root := none, corrupted := true, lastRec := last }), store := store' }, .corrupted)
+        match ITree.add ITree.maxRecs root it with
+        | some r' => ({ chunks := updLast chunks (fun c => { c with root := some r', lastRec := last }) }, .ok)
+        | none => ({ chunks := updLast chunks (fun c => { c with root := none, corrupted := true, lastRec := last }) }, .corrupted)
 
 def findChk (s : St) (cid : Nat) : Option Chk := s.chunks.find? (·.id == cid)
 
@@ -91,9 +90,9 @@ def grEqAns (s : St) (cid : Nat) (ts : Int) : Ans :=
     else if c.corrupted then .corrupted
     else match c.root with
       | none => .corrupted
-      | some r => match IdxTree.grEq 64 s.store r ts with
+      | some r => match ITree.grEq r ts with
         | none => .ok 0
-        | some (x : IdxTree.Rec) => .ok x.idx
+        | some x => .ok x.idx
 
 def lessAns (s : St) (cid : Nat) (ts : Int) : Ans :=
   match findChk s cid with
@@ -104,9 +103,9 @@ def lessAns (s : St) (cid : Nat) (ts : Int) : Ans :=
     else if c.corrupted then .corrupted
     else match c.root with
       | none => .ok maxU32
-      | some r => match IdxTree.less 64 s.store r ts with
+      | some r => match ITree.less r ts with
         | none => .ok maxU32
-        | some (x : IdxTree.Rec) => .ok x.idx
+        | some x => .ok x.idx
 
 def grEqPos (s : St) (cid : Nat) (ts : Int) : String := (grEqAns s cid ts).str
 def lessPos (s : St) (cid : Nat) (ts : Int) : String := (lessAns s cid ts).str
@@ -125,48 +124,45 @@ def points (s : St) (cid : Nat) : String :=
     match c.root with
     | none => "noindex"
     | some r =>
-      let ivs : List IdxTree.Interval := IdxTree.traversal 64 s.store r
+      let ivs : List Points.Iv := ITree.traversal r
       -- `readData`: p0 of every interval, then p1 of the last one (an empty traversal gives one zero record)
-      let pts : List IdxTree.Rec := match ivs.getLast? with
+      let pts : List Points.Pt := match ivs.getLast? with
         | none => [⟨0, 0⟩]
-        | some l => ivs.map (fun (i : IdxTree.Interval) => i.p0) ++ [l.p1]
-      ",".intercalate (pts.map (fun (p : IdxTree.Rec) => toString p.ts ++ ":" ++ toString p.idx))
+        | some l => ivs.map (fun (i : Points.Iv) => i.p0) ++ [l.p1]
+      ",".intercalate (pts.map (fun (p : Points.Pt) => toString p.ts ++ ":" ++ toString p.idx))
 
-/-- `writeIndexInterval` -/
-def writeSeg (store : IdxTree.Store) (root : Option Nat) (segMin segMax : Int) (pos0 pos1 : Nat) : IdxTree.Store × Option Nat :=
-  if pos0 == pos1 then (store, root)
-  else IdxTree.add 8 store root ⟨⟨segMin, pos0⟩, ⟨segMax, pos1⟩⟩
+/-- `writeIndexInterval` (`none` = an earlier step failed) -/
+def writeSeg (root : Option ITree.T) (segMin segMax : Int) (pos0 pos1 : Nat) : Option ITree.T :=
+  match root with
+  | none => none
+  | some t => if pos0 == pos1 then some t else ITree.add ITree.maxRecs t ⟨⟨segMin, pos0⟩, ⟨segMax, pos1⟩⟩
 
 def maxI64 : Int := 9223372036854775807
 
-/-- `rebuildIndexInt` over the chunk's timestamps: (store, root, scanned min, scanned max); `none` root = empty chunk or error -/
-def rebuildIntWith (segMax0 : Int) (store : IdxTree.Store) (tss : List Int) : IdxTree.Store × Option Nat × Int × Int :=
+/-- `rebuildIndexInt` over the chunk's timestamps: (root, scanned min, scanned max); `none` root = empty chunk or error -/
+def rebuildIntWith (segMax0 : Int) (tss : List Int) : Option ITree.T × Int × Int :=
   match tss with
-  | [] => (store, none, 0, 0)
+  | [] => (none, 0, 0)
   | t0 :: _ =>
-    let (store, root) := IdxTree.add 8 store none ⟨⟨t0, 0⟩, ⟨t0, 0⟩⟩
+    let root := ITree.add ITree.maxRecs (.leaf []) ⟨⟨t0, 0⟩, ⟨t0, 0⟩⟩
     -- the loop re-reads record 0 (the iterator was not advanced after the first read)
-    let rec go (ts : List Int) (store : IdxTree.Store) (root : Option Nat) (mn mx segMin segMax : Int) (pos0 pos1 : Nat) (bad : Bool) :
-        IdxTree.Store × Option Nat × Int × Int :=
+    let rec go (ts : List Int) (root : Option ITree.T) (mn mx segMin segMax : Int) (pos0 pos1 : Nat) : Option ITree.T × Int × Int :=
       match ts with
-      | [] =>
-        if bad then (store, none, mn, mx) else
-        let (store, root) := writeSeg store root segMin segMax pos0 pos1
-        (store, root, mn, mx)
+      | [] => (writeSeg root segMin segMax pos0 pos1, mn, mx)
       | t :: rest =>
-        if bad then (store, none, mn, mx) else
-        let mn := min mn t
-        let mx := max mx t
-        let segMin := min segMin t
-        let segMax := max segMax t
-        let pos1 := pos1 + 1
-        if (if Generated.C02.rebuildSegmentIsStrictLess then pos1 - pos0 < sparseSpace else pos1 - pos0 ≤ sparseSpace) then go rest store root mn mx segMin segMax pos0 pos1 false
-        else
-          let (store, root') := writeSeg store root segMin segMax pos0 pos1
-          go rest store root' mn mx maxI64 segMax0 pos1 pos1 root'.isNone
-    go tss store root t0 t0 maxI64 segMax0 0 0 root.isNone
+        match root with
+        | none => (none, mn, mx)
+        | some _ =>
+          let mn := min mn t
+          let mx := max mx t
+          let segMin := min segMin t
+          let segMax := max segMax t
+          let pos1 := pos1 + 1
+          if (if Generated.C02.rebuildSegmentIsStrictLess then pos1 - pos0 < sparseSpace else pos1 - pos0 ≤ sparseSpace) then go rest root mn mx segMin segMax pos0 pos1
+          else go rest (writeSeg root segMin segMax pos0 pos1) mn mx maxI64 segMax0 pos1 pos1
+    go tss root t0 t0 maxI64 segMax0 0 0
 
-def rebuildInt (store : IdxTree.Store) (tss : List Int) := rebuildIntWith Generated.C02.rebuildSegmentMaxInit store tss
+def rebuildInt (tss : List Int) := rebuildIntWith Generated.C02.rebuildSegmentMaxInit tss
 
 /-- `rebuildIndex` (the decision part is the caller's: here the index is rebuilt unconditionally) followed by
 `res.update(rInfo)` -/
@@ -174,15 +170,15 @@ def rebuildWith (segMax0 : Int) (s : St) (cid : Nat) (tss : List Int) : St :=
   match findChk s cid with
   | none => s
   | some _ =>
-    let (store, root, mn, mx) := rebuildIntWith segMax0 s.store tss
+    let (root, mn, mx) := rebuildIntWith segMax0 tss
     match tss with
     | [] =>
       -- an empty chunk (nothing confirmed yet): `rInfo` stays {0, 0} and `update` merges it into the hull
-      { chunks := updChk s.chunks cid (fun c => { c with root := none, corrupted := false, lastRec := 0, minTs := min c.minTs 0, maxTs := max c.maxTs 0 }), store := store }
+      { chunks := updChk s.chunks cid (fun c => { c with root := none, corrupted := false, lastRec := 0, minTs := min c.minTs 0, maxTs := max c.maxTs 0 }) }
     | _ =>
       match root with
-      | none => { chunks := updChk s.chunks cid (fun c => { c with root := none, corrupted := true }), store := store }
-      | some r => { chunks := updChk s.chunks cid (fun c => { c with root := some r, corrupted := false, lastRec := 0, minTs := min c.minTs mn, maxTs := max c.maxTs mx }), store := store }
+      | none => { chunks := updChk s.chunks cid (fun c => { c with root := none, corrupted := true }) }
+      | some r => { chunks := updChk s.chunks cid (fun c => { c with root := some r, corrupted := false, lastRec := 0, minTs := min c.minTs mn, maxTs := max c.maxTs mx }) }
 
 def rebuild (s : St) (cid : Nat) (tss : List Int) : St := rebuildWith Generated.C02.rebuildSegmentMaxInit s cid tss
 /-- the rebuild a repair of finding #41 would give: the segment maximum starts below every timestamp -/
